@@ -149,7 +149,7 @@ func run(c hx.Config) error {
 			// and converted twice, the base again, a sibling, everything once more.
 			if rep == 0 {
 				for ci := range cat {
-					if ci >= nstatic && !c.Thorough() && rng.Intn(len(cat)-nstatic) >= 6 {
+					if lim := map[bool]int{false: 6, true: 60}[c.Thorough()]; ci >= nstatic && rng.Intn(len(cat)-nstatic) >= lim {
 						continue
 					}
 					h := storex.NewHist(storex.WithAddedCheck(b, storex.CheckVariantBase+ci), false)
